@@ -42,6 +42,8 @@ def checkCert : Rd Verdict := do
     let got := tapForward 0 T (ids fc np) r
     if got != (off.getD r []).map some then
       return specFail (path ++ "/spec/routing") s!"rank{r} identity payload arrives as {showList (got.map fun o => match o with | some v => toString v | none => "_")} expected {showList (off.getD r [])}" feats
+  if !routesShifted fc off T then
+    return specFail (path ++ "/spec/routing_shifted") "a send index is out of range (the default value was delivered)" feats
   return ok feats
 
 def opName : Nat → String
